@@ -22,7 +22,7 @@ RULE = ("one evaluation = one step of one operation history (len, get field, t[s
 BUDGET = {"quick": (5000, 40), "thorough": (80000, 900)}
 
 FORMAT_WEIGHTS = [(3, "bed3"), (3, "bed6"), (2, "narrowpeak"), (2, "bdg"), (3, "fastq"), (2, "fasta2"), (2, "vcf"),
-                  (2, "sam")]
+                  (2, "sam"), (2, "bed12"), (2, "vcfinfo")]
 
 
 BAM_FIELDS = ["chromosome", "name", "flag", "position", "mapq", "cigar_op", "cigar_length", "sequence", "quality"]
@@ -132,8 +132,12 @@ def generate(ctx):
     k = (1 + tape.draw(fd["size"] + 2, "chunk_k")) if chunked else None
     # KF-C05-lazy-single-index: t[i] on a lazily read table raises TypeError inside npstructures (int() of a size-1
     # array under numpy 2) while the eager table works; single-index ops are generated in 10 % of the runs only
-    ops = L.gen_program(ctx, fd, [fd["n_records"]], 12 if thorough else 8, allow_item=not ctx.excl)
-    return {"file": fd, "chunk_k": k, "ops": ops}
+    # KF-C05-typed-info-eager-write-unsupported: an eagerly read VCF with typed INFO cannot be written (KeyError for the
+    # INFO table type) while the lazily read twin writes its source bytes; writes of such tables are generated and
+    # observed in 1/10 of the runs only
+    no_write = ctx.excl and fd["format"] == "vcfinfo"
+    ops = L.gen_program(ctx, fd, [fd["n_records"]], 12 if thorough else 8, allow_item=not ctx.excl, allow_write=not no_write)
+    return {"file": fd, "chunk_k": k, "ops": ops, "observe_write": not no_write}
 
 
 def render(x):
@@ -183,10 +187,11 @@ def execute(ctx, sc):
         if not core.same(rl, re_):
             raise Violation("twin", f"{fmt.name}.{op['op']}.differs", d)
     # final observation of every variable in both worlds
+    ow = sc.get("observe_write", True)
     with simfs.Mount(wl.fs), core.quiet():
-        obs_l = [None if raised(v) else wl.observe(v) for v in wl.vars]
+        obs_l = [None if raised(v) else wl.observe(v, with_write=ow) for v in wl.vars]
     with simfs.Mount(we.fs), core.quiet():
-        obs_e = [None if raised(v) else we.observe(v) for v in we.vars]
+        obs_e = [None if raised(v) else we.observe(v, with_write=ow) for v in we.vars]
     for i, (a, b) in enumerate(zip(obs_l, obs_e)):
         ctx.evals += 1
         if a is None and b is None:
@@ -195,8 +200,10 @@ def execute(ctx, sc):
         if (a is None) != (b is None):
             raise Violation("twin", f"{fmt.name}.var.one_fails", dict(d, lazy_result=core.short(a, 300), eager_result=core.short(b, 300)))
         for key in ("len", "rows", "write"):
-            if not core.same(a[key], b[key]):
+            if key not in a and key not in b:
+                continue
+            if not core.same(a.get(key), b.get(key)):
                 raise Violation("twin", f"{fmt.name}.final_{key}.differs",
-                                dict(d, lazy_result=core.short(a[key], 400), eager_result=core.short(b[key], 400)))
+                                dict(d, lazy_result=core.short(a.get(key), 400), eager_result=core.short(b.get(key), 400)))
     ctx.io_events += wl.fs.seq + we.fs.seq
     ctx.note("C05", fmt.name, kinds, wl.fs.seq, we.fs.seq)
